@@ -236,7 +236,7 @@ def _recorded_zero_oracle(ctx: Ctx):
             a = [v - min(a) for v in a]
         elif shift == "mean":
             a = [v * n - sum(a) for v in a]            # integer data with mean exactly 0
-        df = pd.DataFrame({"a": a, "b": [float(rng.choice([-1, 0, 1])) * (k % 3 - 1) + 0.0 for k in range(n)],
+        df = pd.DataFrame({"a": a, "b": [float(k % 3 - 1) + 0.25 * k * rng.choice([1, 2]) for k in range(n)],      # never constant
                            "A": pd.Series([["x", "y", "z"][k % 3] for k in range(n)], dtype=object)})
         if shift == "mean":
             df["b"] = [float(k) - (n - 1) / 2 for k in range(n)]
